@@ -82,30 +82,27 @@ pub fn map_constructor(
         obj.set_property(size_key, JsValue::Number(0.0));
     }
 
-    // If an iterable is passed, add its entries
-    // First collect all pairs from the array, then add them to the map
-    if let Some(JsValue::Object(arr)) = args.first() {
-        let pairs: Vec<(JsValue, JsValue)> = {
-            let arr_ref = arr.borrow();
-            let mut result = Vec::new();
-            if let Some(elements) = arr_ref.array_elements() {
-                for elem in elements {
-                    if let JsValue::Object(pair_arr) = elem {
-                        let pair_ref = pair_arr.borrow();
-                        if pair_ref.is_array() {
-                            let key = pair_ref
-                                .get_property(&PropertyKey::Index(0))
-                                .unwrap_or(JsValue::Undefined);
-                            let value = pair_ref
-                                .get_property(&PropertyKey::Index(1))
-                                .unwrap_or(JsValue::Undefined);
-                            result.push((key, value));
-                        }
-                    }
-                }
-            }
-            result
+    // If an iterable is passed (an array, a Map, a generator, ...), add its entries: each
+    // must be an object whose properties 0 and 1 are the key and the value
+    let source = args.first().cloned().unwrap_or(JsValue::Undefined);
+    if !matches!(source, JsValue::Undefined | JsValue::Null) {
+        let Some(items) = interp.collect_iterator_values(&source)? else {
+            return Err(JsError::type_error("Map constructor argument is not iterable"));
         };
+        let mut pairs: Vec<(JsValue, JsValue)> = Vec::with_capacity(items.len());
+        for item in items {
+            let JsValue::Object(pair) = item else {
+                return Err(JsError::type_error("Iterator value is not an entry object"));
+            };
+            let pair_ref = pair.borrow();
+            let key = pair_ref
+                .get_property(&PropertyKey::Index(0))
+                .unwrap_or(JsValue::Undefined);
+            let value = pair_ref
+                .get_property(&PropertyKey::Index(1))
+                .unwrap_or(JsValue::Undefined);
+            pairs.push((key, value));
+        }
 
         // Now add all pairs to the map
         let size_key = PropertyKey::String(interp.intern("size"));
